@@ -59,6 +59,7 @@ type HarnessCfg struct {
 	FPUF        bool // float arithmetic as uninterpreted functions (sound for proving equalities such as symmetry)
 	NoMerge     bool // disable ite-merging of pure diamonds (debugging / cross-validation)
 	KeepWitnesses bool // keep a model for every satisfied cover
+	Validate      int // >0: replay up to this many cover witnesses per label on the native build (model validation)
 	Entry       func(in *Interp, p *Path) // engine-level harness body (instead of a Go harness function)
 	PanicIsViol bool // a Go panic in the code under test counts as violation label "panic"
 }
@@ -69,6 +70,7 @@ type HarnessResult struct {
 	Ends         map[string]int64
 	Steps        int64
 	Queries      int64
+	SolverRestarts int64
 	AssertsProved map[string]int64
 	AssertsReached map[string]int64
 	Covers       map[string]bool
@@ -171,6 +173,21 @@ func (p *Path) sync() {
 	}
 }
 
+// reviveSolver replaces a dead solver process and re-sends this path's assertion stack.
+func (p *Path) reviveSolver() bool {
+	if p.sv.deaths >= 6 {
+		return false
+	}
+	if err := p.sv.restart(); err != nil {
+		return false
+	}
+	atomic.AddInt64(&p.ex.res.SolverRestarts, 1)
+	p.sv.send("(push 1)")
+	p.sent = 0
+	p.sync()
+	return !p.sv.dead
+}
+
 // query: is pc ∧ extras satisfiable?
 func (p *Path) query(wantModel bool, extras ...*Term) (string, map[string]string) {
 	for _, e := range extras {
@@ -179,17 +196,24 @@ func (p *Path) query(wantModel bool, extras ...*Term) (string, map[string]string
 		}
 	}
 	p.sync()
-	if p.sv.dead {
+	if p.sv.dead && !p.reviveSolver() {
 		return "error", nil
 	}
 	atomic.AddInt64(&p.ex.res.Queries, 1)
-	p.sv.send("(push 1)")
-	for _, e := range extras {
-		if !(e.C && e.B) {
-			p.sv.send("(assert " + e.S + ")")
+	ask := func() string {
+		p.sv.send("(push 1)")
+		for _, e := range extras {
+			if !(e.C && e.B) {
+				p.sv.send("(assert " + e.S + ")")
+			}
 		}
+		return p.sv.check()
 	}
-	r := p.sv.check()
+	r := ask()
+	if r == "error" && p.sv.dead && p.reviveSolver() {
+		// the solver process died on this query (crash / out of memory): one retry on a fresh process
+		r = ask()
+	}
 	var model map[string]string
 	if r == "sat" && wantModel {
 		names := make([]string, len(p.vx))
